@@ -275,7 +275,11 @@ func genEvalCase(r *rng, i int, mode string) (*evalCase, *hostEnv) {
 			}
 			body = &RBlock{HasRet: true, Ret: e}
 		} else {
+			g.recvLocal = mode == "conc" && r.chance(1, 3)
 			body = g.block(2+r.intn(2), false, true)
+			if g.recvLocal {
+				body.Stmts = append([]*RS{{Op: "assign", Sym: "=", Tgt: &RE{Op: "var", Sym: "t"}, E: &RE{Op: "var", Sym: "S"}}}, body.Stmts...)
+			}
 			if r.chance(1, 6) {
 				body.Stmts = append(body.Stmts, &RS{Op: "assign", Sym: "=", Tgt: &RE{Op: "var", Sym: "x3"}, E: atExpr(r)})
 			}
